@@ -358,7 +358,9 @@ func Script(name string) [][]string {
 			case 4:
 				if i%16 == 4 {
 					// a type whose writes sit in a write-back cache until a checkpoint flushes them
-					out = append(out, []string{"pfadd", k("p"), fmt.Sprintf("e%d", i)})
+					// (its own table: a key scan reads the engine and does not see a key that only lives in the cache yet,
+					// so the listing of table t would differ between a running and a restarted node for that reason alone)
+					out = append(out, []string{"pfadd", NS + ":hll:p", fmt.Sprintf("e%d", i)})
 				} else {
 					out = append(out, []string{"sadd", k("s"), fmt.Sprintf("m%d", i)})
 				}
@@ -395,7 +397,7 @@ func Script(name string) [][]string {
 var dumpReads = func() [][]string {
 	k := func(s string) string { return NS + ":t:" + s }
 	return [][]string{{"get", k("cnt")}, {"get", k("kv")}, {"get", k("log")}, {"hgetall", k("h")}, {"hlen", k("h")}, {"lrange", k("l"), "0", "-1"}, {"llen", k("l")},
-		{"smembers", k("s")}, {"scard", k("s")}, {"pfcount", k("p")}, {"zrange", k("z"), "0", "-1", "withscores"}, {"zcard", k("z")},
+		{"smembers", k("s")}, {"scard", k("s")}, {"pfcount", NS + ":hll:p"}, {"zrange", k("z"), "0", "-1", "withscores"}, {"zcard", k("z")},
 		{"advscan", NS + ":t:", "kv", "count", "100"}, {"advscan", NS + ":t:", "hash", "count", "100"}, {"advscan", NS + ":t:", "list", "count", "100"},
 		{"advscan", NS + ":t:", "set", "count", "100"}, {"advscan", NS + ":t:", "zset", "count", "100"}}
 }()
